@@ -90,14 +90,15 @@ fn c03_g2_group_pack_unpack_roundtrip() {
     let (a_min, a_max, b_min, b_max): (i64, i64, i64, i64) = (kani::any(), kani::any(), kani::any(), kani::any());
     kani::assume(a_min <= a_max && b_min <= b_max);
     if let Some((k, shift, mask)) = kx_c03_group_arith(a_min, a_max, b_min, b_max) {
-        assert!(a_min >= 0 && b_min >= 0);
         let (a, b): (i64, i64) = (kani::any(), kani::any());
         kani::assume(a_min <= a && a <= a_max && b_min <= b && b <= b_max);
         let pk = pack_checked(a, k as i64, b);
         assert!(pk.is_some());
         let pk = pk.unwrap();
         assert!(shift >= 0 && shift < 64);
-        assert!(pk >> shift == a);
+        // the Project above the aggregate unpacks with the engine's BITWISE_RIGHT_SHIFT, which
+        // filter.rs evaluates as a LOGICAL shift on u64, and BITWISE_AND
+        assert!(((pk as u64) >> shift) as i64 == a);
         assert!(pk & mask == b);
     }
 }
